@@ -233,6 +233,9 @@ def emitted_types(ctx, entry_value):
     req = None
     if rq and denote.is_expr(rq[-1][2], 'Lit') and rq[-1][2].fields[0].variant == 'Bool':
         req = rq[-1][2].fields[0].fields[0].get('value')
+    sk = [en for en in ents if en[0] == 'kv' and isinstance(en[1], SStr) and en[1].is_concrete() and en[1].py() == 'skipCheck']
+    if sk and denote.is_expr(sk[-1][2], 'Lit') and sk[-1][2].fields[0].variant == 'Bool' and sk[-1][2].fields[0].fields[0].get('value') is True:
+        return None, req        # Vue: `skipCheck: true` turns the runtime type check off (the types only drive boolean casting)
     if denote.is_null(tv):
         return None, req
     if denote.is_expr(tv, 'Ident'):
